@@ -209,9 +209,46 @@ struct Loaded {
 struct Reference {
     loaded: BTreeMap<usize, Loaded>,
 }
+/// the documented contract of `CertifiedKeyWrapper::try_from` on names: stored
+/// lower-cased and without one trailing dot; a certificate with a name that is
+/// then empty, starts with '.' or contains '/' is refused
+fn prep_names(names: &[Vec<u8>]) -> Option<Vec<Vec<u8>>> {
+    let ns: Vec<Vec<u8>> = names
+        .iter()
+        .map(|n| {
+            let mut v = n.to_ascii_lowercase();
+            if v.len() > 1 && v.last() == Some(&b'.') {
+                v.pop();
+            }
+            v
+        })
+        .collect();
+    if ns.iter().any(|n| n.is_empty() || n[0] == b'.' || n.contains(&b'/')) {
+        None
+    } else {
+        Some(ns)
+    }
+}
+
 impl Reference {
-    fn add(&mut self, id: usize, names: &[Vec<u8>], exp: i64) {
-        self.loaded.entry(id).or_insert(Loaded { names: names.to_vec(), exp });
+    /// `false` = refused (nothing changes)
+    fn add(&mut self, id: usize, names: &[Vec<u8>], exp: i64) -> bool {
+        match prep_names(names) {
+            Some(ns) => {
+                self.loaded.entry(id).or_insert(Loaded { names: ns, exp });
+                true
+            }
+            None => false,
+        }
+    }
+    fn replace(&mut self, old: Option<usize>, id: usize, names: &[Vec<u8>], exp: i64) {
+        if prep_names(names).is_none() || old == Some(id) {
+            return;
+        }
+        self.add(id, names, exp);
+        if let Some(o) = old {
+            self.remove(o);
+        }
     }
     fn remove(&mut self, id: usize) {
         self.loaded.remove(&id);
@@ -787,12 +824,7 @@ impl Area for Tls {
                 let exp = *rng.pick(&exps);
                 let olds = old.map(|o| o.to_string()).unwrap_or_else(|| "x".into());
                 ops.push(format!("{} {olds} {id} {exp} {} -", if split { "replsplit" } else { "repl" }, names_field(&names)));
-                if old != Some(id) {
-                    reference.add(id, &names, exp);
-                    if let Some(o) = old {
-                        reference.remove(o);
-                    }
-                }
+                reference.replace(old, id, &names, exp);
             } else if r < 85 {
                 ops.push(if rng.chance(1, 2) { "addbad".into() } else { format!("replbad {}", fresh(rng)) });
             } else {
@@ -949,7 +981,10 @@ impl Area for Tls {
                                 reference.add(id, &names, exp);
                                 format!("fp {}", im.id_of(&fp))
                             }
-                            Err(_) => "err".into(),
+                            Err(_) => {
+                                r.tags.push("add:refused".into());
+                                "err".into()
+                            }
                         }
                     }
                     "addbad" => {
@@ -1022,8 +1057,15 @@ impl Area for Tls {
                             }
                             out
                         } else {
-                            // the body of replace_certificate, as two public calls with a probe between
-                            if old_id == Some(id) {
+                            // the body of replace_certificate, as public calls with a probe between
+                            let parsed = sozu_lib::tls::CertifiedKeyWrapper::try_from(&AddCertificate {
+                                address: addr,
+                                certificate: ck.clone(),
+                                expired_at: Some(exp),
+                            });
+                            if let Err(e) = parsed {
+                                Err(e)
+                            } else if old_id == Some(id) {
                                 mid_dump = Some((grid.iter().map(|n| im.probe(n).0).collect(), reference.clone()));
                                 Ok(asset.fp.clone())
                             } else {
@@ -1481,10 +1523,7 @@ impl Area for TlsE2e {
                 };
                 let exp = *rng.pick(&exps);
                 ops.push(format!("repl {old} {id} {exp} {} -", names_field(&names)));
-                if old != id {
-                    reference.add(id, &names, exp);
-                    reference.remove(old);
-                }
+                reference.replace(Some(old), id, &names, exp);
             } else {
                 let mut sni = rng.pick(&grid).clone();
                 for _ in 0..4 {
